@@ -150,3 +150,72 @@ def run(chk):
     for ob in obligations:
         r3.require(ob not in found, f"{ctf.key}|{ob}", ctf.where(), f"compute_temperature_features(meter_index, temperatures, data_quality=True): {found.get(ob, '')}",
                    sample={"obligation": ob, "paths": n_paths})
+    _readings_reach_aggregation(chk)
+
+
+def _readings_reach_aggregation(chk):
+    """R09.5: _set_data (shared by the daily and billing classes) is interpreted on a state frame: at the call of
+    _compute_temperature_features the temperature column must still be the caller's readings (only whole rows may have been dropped)."""
+    from engine.absint import AbsObj, ClassRef, ModuleEnv, Opaque
+    from engine.pyinterp import Function, Interp, InterpRaised, Stub, StubCall, Unsupported
+    from rules.colterms import CT, SFrame
+    r5 = chk.rule("R09.5", "the temperature readings reach the aggregation unaltered: _set_data hands _compute_temperature_features the caller's temperature column (rows may be de-duplicated, values not touched)", 4)
+    fi = chk.repo.func(DAILY_DATA, "_DailyData._set_data")
+
+    class _Idx(AbsObj):
+        def __getattr__(self, name):
+            if name.startswith("_"):
+                raise AttributeError(name)
+            return Opaque(f"index.{name}")
+
+        def duplicated(self, keep="first"):
+            return CT("index.duplicated", keep)
+
+    class _PD(Stub):
+        DatetimeIndex = ClassRef("DatetimeIndex")
+
+        @staticmethod
+        def to_datetime(x, **k):
+            return x
+
+    class _NP(Stub):
+        nan = float("nan")
+
+    for elec in (True, False):
+        for unit in ("ns", "us"):
+            seen: Dict[str, object] = {}
+
+            def meter(df):
+                seen["meter"] = df
+                return AbsObj({"DataFrame"}, index=Opaque("meter.index"))
+
+            def temps(df, meter_index):
+                seen["temps"] = df
+                return Opaque("temp"), Opaque("coverage")
+            idx = _Idx({"DatetimeIndex"}, tz=Opaque("tz"), dtype=AbsObj({"dtype"}, unit=unit))
+            me = AbsObj({"_DailyData"}, is_electricity_data=elec, warnings=[], disqualification=[],
+                        _compute_meter_value_df=StubCall(meter), _compute_temperature_features=StubCall(temps), _merge_meter_temp=StubCall(lambda m, t: Opaque("merged")))
+            it = Interp(step_limit=50_000)
+            stand = {"pd": _PD(), "pandas": _PD(), "np": _NP(), "numpy": _NP(), "remove_duplicates": StubCall(lambda d: d.rowop("remove_duplicates")),
+                     "EEMeterWarning": StubCall(lambda **k: Opaque("warning"))}
+            env = ModuleEnv(chk.repo, fi.module, it, stand)
+            key = f"{fi.key}|temperature-unaltered|electricity={elec}|index-unit={unit}"
+            try:
+                Function(fi.node, env, it)(me, SFrame.start(["observed", "temperature"], index=idx))
+            except InterpRaised as e:
+                r5.require(False, key, fi.where(), f"_set_data raises {e.exc_name} on a well-formed frame (tz-aware DatetimeIndex, observed + temperature)")
+                continue
+            except Unsupported as e:
+                raise AnalysisError(f"{fi.key}: uses an operation outside the modelled subset: {e}")
+            fr = seen.get("temps")
+            if not isinstance(fr, SFrame):
+                r5.require(False, key, fi.where(), "_set_data does not hand the input frame to _compute_temperature_features")
+                continue
+            t = fr._cols.get("temperature")
+            got = t.key() if isinstance(t, CT) else repr(t)
+            r5.require(got == "col:temperature", key, fi.where(),
+                       f"_set_data alters the temperature readings before they are aggregated: the column handed to _compute_temperature_features is `{got}` "
+                       f"(a reading that is changed or blanked here is no longer 'present': the day's mean and its coverage counts are then wrong)",
+                       sample={"electricity": elec, "temperature": got, "rows": fr._rows})
+            sel = [r for r in fr._rows if r not in ("remove_duplicates", "select(not(index.duplicated('first')))")]
+            r5.require(not sel, key + "|rows", fi.where(), f"_set_data drops rows of the input before the temperature is aggregated other than duplicate stamps: {sel}")
